@@ -117,7 +117,6 @@ class C18:
             os.replace(tmp, GEN)
         return True, f'{len(self.scan["inventory"])} cells'
 
-
     def inventory_check(self):
         """returns (coverage part, findings, broken)"""
         if self.scan is None:
@@ -148,7 +147,7 @@ class C18:
                                          f"calling them on one shared object have a schedule with a wrong result",
                                  'line': f"{e['file']}:{e['line']}", 'writers': e['writers']})
             elif e['name'] not in known_cells and e['writers'] and e['cls'] != 'perObject':
-                broken.append({'what': 'obligation', 'name': 'SmoothProps.C18.Gen.write_free_outside_known_findings',
+                broken.append({'what': 'obligation', 'name': 'SmoothProps.C18.Gen.no_cell_written_by_const',
                                'detail': f"{e['name']} has writers {e['writers']} but is classified {e['cls']}"})
         listing = [{'cell': e['name'], 'kind': e['kind'], 'const': e['const'], 'class': e['cls'], 'writers': e['writers'],
                     'where': f"{e['file']}:{e['line']}"} for e in inv]
@@ -158,6 +157,10 @@ class C18:
         return cov, findings, broken
 
     # ------------------------------------------------------------------ stress (tie b)
+    def prebuild(self):
+        """compile both harness variants against the current vlib.REPO (called by tools/prebuild.py)"""
+        return self.binaries()
+
     def binaries(self):
         specs = [('conc', 'conc.cpp', ('-O1', '-pthread')),
                  ('conc_tsan', 'conc.cpp', ('-O1', '-g1', '-fsanitize=thread', '-pthread'))]
@@ -251,7 +254,7 @@ class C18:
             t_plain += dt
         all_reports = []
         for (T, iters, seed) in plan_tsan:
-            r, logs, dt = self.run_one(bins['conc_tsan'], T, iters, seed, ops, tsan_tag=f'{ctx["seed"]}.{T}')
+            r, logs, dt = self.run_one(bins['conc_tsan'], T, iters, seed, ops, tsan_tag=f'{os.getpid()}.{T}')
             rows += r
             t_tsan += dt
             for rep in self.parse_tsan(logs):
@@ -322,8 +325,8 @@ class C18:
             ts = sorted({2, 3, 4, 8, 16, rnd.choice([5, 6, 7]), rnd.choice([9, 10, 11, 12, 13, 14, 15])})
             tsan = [(T, 240 * budget, seed) for T in ts]
         else:
-            plain = [(T, 20000 * budget, seed + k) for T in ALL_T for k in (0, 101)]
-            tsan = [(T, 600 * budget, seed) for T in ALL_T]
+            plain = [(T, 60000 * budget, seed + k) for T in ALL_T for k in (0, 101, 202)]
+            tsan = [(T, 2400 * budget, seed) for T in ALL_T]
         return plain, tsan
 
     # ------------------------------------------------------------------ entry points
